@@ -10,4 +10,5 @@ for e in importsim chrootsim ordersim compilesim; do
   ./build.sh "$W/$e" "$e" >/dev/null || exit 1
 done
 ./build.sh "$W/race" compilesim -race >/dev/null || exit 1
+./build.sh "$W/race2" importsim -race >/dev/null || exit 1
 echo setup ok
